@@ -161,10 +161,11 @@ func (x *Exec) libCall(st *State, fi int, full string, callee *ssa.Function, arg
 			return true
 		}
 		dom, _, card, ks, _ := x.mapArrs(st, st.heap, st.epoch, mt)
-		x.recHeap("MD$" + ks)
-		x.recHeap("MC")
-		x.heapSet(st, "MD$"+ks, Store(dom, args[0].T, Term{fmt.Sprintf("((as const (Array %s Bool)) false)", ks), ArraySort(ks, "Bool")}))
-		x.heapSet(st, "MC", Store(card, args[0].T, IntLit(0)))
+		dn, _, cn := x.mapNames(mt)
+		x.recHeap(dn)
+		x.recHeap(cn)
+		x.heapSet(st, dn, Store(dom, args[0].T, Term{fmt.Sprintf("((as const (Array %s Bool)) false)", ks), ArraySort(ks, "Bool")}))
+		x.heapSet(st, cn, Store(card, args[0].T, IntLit(0)))
 		k(st, Value{})
 		return true
 	}
@@ -217,7 +218,15 @@ func (x *Exec) libInvoke(st *State, fi int, it types.Type, m *types.Func, recv V
 		resT = sig.Results()
 	}
 	switch tn + "." + m.Name() {
-	case "context.Context.Done", "context.Context.Err", "error.Error", "context.Context.Value", "context.Context.Deadline",
+	case "context.Context.Done":
+		// the done channel is a function of the context value
+		x.libUsed[tn+"."+m.Name()] = true
+		x.decls.Fun("ctxdone", []string{"Iface"}, "Ref")
+		v := Value{T: App("ctxdone", "Ref", recv.T), Typ: resT}
+		return &v
+	}
+	switch tn + "." + m.Name() {
+	case "context.Context.Err", "error.Error", "context.Context.Value", "context.Context.Deadline",
 		"net.Conn.SetDeadline", "net.Conn.Close", "log/slog.EventLogger.Log":
 		x.libUsed[tn+"."+m.Name()] = true
 		v := Value{}
